@@ -55,7 +55,16 @@ _orig_violation = ck.violation
 _dbg_n = [0]
 
 
+_per_sig = {}
+MAX_PER_SIGNATURE = 3      # a systematic defect fails hundreds of cases: keep the first few replays of each kind
+
+
 def _violation(replay, what, signature=None, found_input=True):
+    key = re.sub(r"\d+", "#", str(signature or what))[:80]
+    _per_sig[key] = _per_sig.get(key, 0) + 1
+    if _per_sig[key] > MAX_PER_SIGNATURE and not ck.is_known(signature or ""):
+        bump(stats.setdefault("violations_not_written", {}), key)
+        return False
     if DEBUG_DIR:
         _dbg_n[0] += 1
         with open(os.path.join(DEBUG_DIR, "v%d.json" % _dbg_n[0]), "w") as f:
@@ -284,8 +293,22 @@ def evaluate_case(cid, lines, mods, impl, mod, mscan, probe):
                          signature="C10:expr-item-output")
             bump(stats["probe"], "expr-item-output")
             return
+        # the writer produced other bytes than its model.  Does the written text still denote the module?
+        # Judge with the scanner model: read the real text, write it with the writer model, compare with the
+        # model text of the original module.
+        denotes = mscan is not None and "ok" in mscan and mscan["ok"] == mod.get("norm", mt)
+        if not denotes and wf == "ok":      # (outside WF the scanner model cannot act as a judge)
+            ck.violation(dict(replay, impl_output=t1.decode("latin1"), model_output=mt.decode("latin1"),
+                              first_diff=first_diff(t1, mt),
+                              reread=(mscan or {}).get("err", (mscan or {}).get("ok", b"").decode("latin1") if mscan else None),
+                              spec_verdict="the text written by MIR_output does not read back as the module that was built"),
+                         what="MIR_output writes a text that does not denote the module built through the API (differs from "
+                              "the writer model at byte %d and reads back as another module)" % first_diff(t1, mt)["at"],
+                         signature="C10:writer-changes-module")
+            return
         ck.broken_ties.append({"kind": "correspondence", "name": "writer-model-vs-MIR_output", "case": cid,
-                               "first_diff": first_diff(t1, mt), "description": lines[:60]})
+                               "first_diff": first_diff(t1, mt), "description": lines[:60],
+                               "note": "the text still reads back as the same module"})
         return
     stats["print_equal"] += 1
     distinct.add(hash(mt))
@@ -374,7 +397,7 @@ def first_diff(a, b):
 
 PROBES = ["uint-ge-2^63", "str-no-nul", "blk-size-ge-2^32", "data-type-p", "label-before-endfunc",
           "stale-insn-code", "ref-shadowed-by-reg", "bss-ge-2^63", "expr-item", "float-literal",
-          "label-numbering", "bad-name", "strdata-no-nul"]
+          "label-numbering", "bad-name", "strdata-no-nul", "label-position", "ref-undeclared"]
 
 
 def gen_cases(rng, table):
@@ -409,13 +432,38 @@ def gen_cases(rng, table):
                 g = G.Gen(rng, table)
                 mods = [g.module(nitems=4)]
                 bad = rng.choice(["a-b", "1x", "a b", "x@", "", "a:b", "\xe9t\xe9", "a\"b", "a,b"])
-                tgt = rng.below(3)
+                tgt = rng.below(6)
                 if tgt == 0:
                     mods[0]["name"] = bad
                 elif tgt == 1:
                     mods[0]["items"].append(dict(kind="bss", name=bad, len=4))
-                else:
+                elif tgt == 2:
                     mods[0]["items"].append(dict(kind="import", name=bad))
+                else:
+                    # a register, a parameter or an alias with a spelling that is not a name
+                    if bad == "":
+                        bad = "a b"
+                    f = dict(kind="func", name=g.name(False), res=["i64"], args=[("i64", "a", 0)], vararg=False,
+                             locals=[("i64", "x")], globals=[], body=[], labels=[], regs=[])
+                    if tgt == 3:
+                        f["locals"] = [("i64", bad)]
+                        f["body"] = [("mov", [("r", bad), ("i", 1)]), ("ret", [("r", bad)])]
+                    elif tgt == 4:
+                        f["args"] = [("i64", bad, 0)]
+                        f["body"] = [("ret", [("r", bad)])]
+                    else:
+                        f["body"] = [("mov", [("r", "x"), ("m", "i32", 0, "a", None, 1, bad, None)]), ("ret", [("r", "x")])]
+                    mods[0]["items"].append(f)
+                add(mods, p)
+            elif p == "label-position":
+                g = G.Gen(rng, table, probe=p)
+                mods = [g.module(nitems=2)]
+                g.probe_label_position(mods[0])
+                add(mods, p)
+            elif p == "ref-undeclared":
+                g = G.Gen(rng, table, probe=p)
+                mods = [g.module(nitems=2)]
+                g.probe_ref_undeclared(mods[0])
                 add(mods, p)
             else:
                 for attempt in range(30):
@@ -680,7 +728,8 @@ def replay_one(path, table):
             ms = model_scan([("r", impl["text1"])]).get("r")
         mods = [{"items": [{"kind": "expr"}] if any(l.startswith("expr ") for l in lines) else []}]
         evaluate_case("r", lines, mods, impl, mod, ms, d.get("probe"))
-        print(json.dumps({"impl": impl.get("lines"), "wf": (mod or {}).get("wf")}, indent=1)[:3000])
+        if ck.replay:
+            print(json.dumps({"impl": impl.get("lines"), "wf": (mod or {}).get("wf")}, indent=1)[:3000])
     elif inp.get("kind") in ("text", "text-file"):
         t = (open(os.path.join(REPO, inp["file"]), "rb").read() if inp.get("kind") == "text-file" and os.path.exists(os.path.join(REPO, inp.get("file", "")))
              else inp.get("text", "").encode("latin1"))
